@@ -59,6 +59,15 @@ def _init_then_media(fn: ast.AST) -> bool:
                 m = re.fullmatch(r'(\w+)\[0\]', kw['init'])
                 if m and kw['media'] == f'{m.group(1)}[1:]':
                     return True
+                # init = ranges[0] if there are any (else a default), media = ranges[1:]
+                m2 = re.fullmatch(r'(\w+)\[1:\]', kw['media'])
+                if m2 and re.fullmatch(r'\w+', kw['init']):
+                    defs = [norm(a.value) for a in ast.walk(fn) if isinstance(a, (ast.Assign, ast.AnnAssign))
+                            and getattr(a, 'value', None) is not None
+                            and norm(a.targets[0] if isinstance(a, ast.Assign) else a.target) == kw['init']]
+                    if f'{m2.group(1)}[0]' in defs and all(
+                            d == f'{m2.group(1)}[0]' or d.startswith('SegmentPosition(') for d in defs):
+                        return True
     return False
 
 
@@ -497,69 +506,58 @@ def r06_5(rep: Report) -> None:
     cls = need(find_class(tree, 'Representation'), 'Representation')
     fn = need(find_func(cls, 'calculate_segment_number_and_time'), 'calculate_segment_number_and_time')
     construct = f'{REP}::Representation.calculate_segment_number_and_time'
-    branch = None
-    for st in fn.body:
-        if isinstance(st, ast.If) and "mode != 'live'" in norm(st.test):
-            branch = st.body
-        elif isinstance(st, ast.If) and "mode == 'live'" in norm(st.test) and st.orelse:
-            branch = st.orelse
-    if branch is None:
-        raise AnalysisError('calculate_segment_number_and_time: non-live branch not found')
-    found = 0
     nt = need(find_class(tree, 'SegmentNumberAndTime'), 'SegmentNumberAndTime')
     fields = [x.target.id for x in nt.body if isinstance(x, ast.AnnAssign) and isinstance(x.target, ast.Name)]
     if len(fields) < 2:
         raise AnalysisError('SegmentNumberAndTime: fields not found')
+    # every return on a path whose condition implies a static mode, with locals read as the values
+    # they have on that path
+    from ..core import lin_atoms
+    from ..flow import Disjunctive, each_exit
+    from ..pathcond import PathCond, entails as pc_entails, f_not, sym_values
+    upd, resolve = sym_values(max_len=400)
+    pcd = PathCond(subst={'timing': 'self._timing'}, upd=upd, decide=upd.decide)
+    live = ('atom', "self._timing.mode == 'live'")
+    found = 0
+    seen_keys: set[str] = set()
 
-    def run(stmts: list[ast.stmt], env: dict) -> None:
+    def on_ret(kind, st, state):
         nonlocal found
-        for st in stmts:
-            if isinstance(st, ast.If):
-                run(st.body, dict(env))
-                env2 = dict(env)
-                run(st.orelse, env2)
-                # fall-through: both arms may have assigned; keep the arm states separately
-                body_env = dict(env)
-                _assign_all(st.body, body_env)
-                after = [body_env, env2] if not _ends(st.body) else [env2]
-                rest = stmts[stmts.index(st) + 1:]
-                for e2 in after:
-                    run(rest, e2)
-                return
-            if isinstance(st, ast.Assign) and len(st.targets) == 1:
-                env[norm(st.targets[0])] = _lin2(st.value, env)
-            elif isinstance(st, ast.Return) and isinstance(st.value, ast.Call) \
-                    and (call_name(st.value) or '').endswith('SegmentNumberAndTime') \
-                    and len(st.value.args) + len(st.value.keywords) >= 2:
-                actual = dict(zip(fields, st.value.args))
-                actual.update({k.arg: k.value for k in st.value.keywords if k.arg})
-                if fields[0] not in actual or fields[1] not in actual:
-                    raise AnalysisError('SegmentNumberAndTime(..): number / index arguments not found')
-                num, idx = _lin2(actual[fields[0]], env), _lin2(actual[fields[1]], env)
-                diff = dict(num)
-                for k, v in idx.items():
-                    diff[k] = diff.get(k, 0) - v
-                diff = {k: v for k, v in diff.items() if v}
-                found += 1
-                key = f'return {short(st.value, 50)} #{found}'
-                if diff == {'self.start_number': 1, '1': -1}:
-                    rep.ok(rid, construct, key, 'number - index == start_number - 1')
-                else:
-                    rep.fail(rid, construct, key,
-                             f'on a static path the returned number and file index differ by {_fmt(diff)}; they '
-                             'must differ by start_number - 1 (a stored file whose first sequence number '
-                             'is not 1 is addressed one or more segments off, and the served mfhd '
-                             'sequence number is wrong)', st)
-
-    def _assign_all(stmts, env):
-        for st in stmts:
-            if isinstance(st, ast.Assign) and len(st.targets) == 1:
-                env[norm(st.targets[0])] = _lin2(st.value, env)
-
-    def _ends(stmts) -> bool:
-        return bool(stmts) and isinstance(stmts[-1], (ast.Return, ast.Raise))
-
-    run(branch, {})
+        if kind != 'return' or st is None or st.value is None:
+            return
+        if pc_entails(state[0], f_not(live)) is not True:
+            return
+        v = st.value
+        if not (isinstance(v, ast.Call) and (call_name(v) or '').endswith('SegmentNumberAndTime')):
+            v = resolve(state, v)
+        if not (isinstance(v, ast.Call) and (call_name(v) or '').endswith('SegmentNumberAndTime')):
+            return
+        actual = dict(zip(fields, v.args))
+        actual.update({k.arg: k.value for k in v.keywords if k.arg})
+        if fields[0] not in actual or fields[1] not in actual:
+            raise AnalysisError('SegmentNumberAndTime(..): number / index arguments not found')
+        num = lin_atoms(resolve(state, actual[fields[0]]))
+        idx = lin_atoms(resolve(state, actual[fields[1]]))
+        diff = dict(num)
+        for k, c_ in idx.items():
+            diff[k] = diff.get(k, 0) - c_
+        diff = {k: c_ for k, c_ in diff.items() if c_}
+        found += 1
+        sig = norm(st) + str(sorted(num.items()))
+        if sig in seen_keys:
+            return
+        seen_keys.add(sig)
+        key = f'return {short(st.value, 50)} #{len(seen_keys)}'
+        if diff == {'self.start_number': 1, '': -1}:
+            rep.ok(rid, construct, key, 'number - index == start_number - 1')
+        else:
+            shown = ' '.join(f'{"+" if c_ > 0 else "-"} {k or abs(c_)}' for k, c_ in sorted(diff.items())) or '0'
+            rep.fail(rid, construct, key,
+                     f'on a static path the returned number and file index differ by {shown}; they '
+                     'must differ by start_number - 1 (a stored file whose first sequence number '
+                     'is not 1 is addressed one or more segments off, and the served mfhd '
+                     'sequence number is wrong)', st)
+    Flow(Disjunctive(pcd, cap=256), on_exit=each_exit(on_ret)).run(fn, [PathCond.initial()])
     if not found:
         raise AnalysisError('calculate_segment_number_and_time: no SegmentNumberAndTime return on the static path')
 
